@@ -212,6 +212,8 @@ type Def struct {
 	Disp   bool   `json:"disp"`
 	Comp   bool   `json:"comp"`  // completion family: every word sequence is run as a COMP_LINE for bash and zsh
 	HelpF  bool   `json:"helpf"` // help family: the help of every command level is requested through all paths
+	// history family: every argv is also run after an earlier Parse of each of these argument lists on the same object
+	Pres [][]Tok `json:"pres,omitempty"`
 }
 
 // Case - one case line of a trace file.
@@ -227,7 +229,10 @@ type Case struct {
 	UseRaw  bool     `json:"useraw,omitempty"`
 	RawLine string   `json:"rawline,omitempty"`
 	RawArgs []string `json:"rawargs,omitempty"`
-	Res     Res      `json:"res"`
+	// history case: an earlier Parse(Pre) ran on the same object before the observed Parse(Argv)
+	HasPre bool  `json:"haspre,omitempty"`
+	Pre    []Tok `json:"pre,omitempty"`
+	Res    Res   `json:"res"`
 }
 
 func (c *Cfg) Normalize() {
